@@ -68,7 +68,7 @@ impl Property for C16 {
     }
     fn cases(&self, tier: Tier) -> u64 {
         match tier {
-            Tier::Quick => 150000,
+            Tier::Quick => 250_000,
             Tier::Thorough => 5000000,
         }
     }
